@@ -568,7 +568,7 @@ def xff13_roundtrip_counts(h):
     _zone_names_roundtrip(h, _ZONE_COUNT_NAME_BYTES[:n])
 
 
-ZN_PAYLOAD_MAX = 10
+ZN_PAYLOAD_MAX = 8
 
 
 @oset("at5.xFF13.decode-vendor-reading", ["C05", "C17"], ZN_FNS[2:],
@@ -624,3 +624,79 @@ def xff13_decode(h):
             h.oblige("decoded zone indices are pairwise distinct", got[i][0] != got[j][0])
     h.oblige("nothing left over", h.length(h.attr(r.value, "remaining")) == 0)
     h.cover("xFF13 decode returns a message")
+
+
+# ================================ 0xFF49 quick timer (undocumented) ==============================
+# Repo-derived oracle (the vendor document does not list 0xFF49): x1FFF49_quick_timer.py says the payload is
+# four bytes "!BBBB" = AC number, timer type (TimerType.OFF_TIMER = 0, ON_TIMER = 1), hours, minutes; "the
+# message supports a quick timer setting of up to 255 hours [...] however the resulting timer will be modulo
+# 24 hours. To provide intuitive behaviour [...] we replicate the modulo 24 behaviour here"; duration
+# "resolution is to the nearest minute".  tests/at5/comms/test_x1FFF49_quick_timer.py: AC 1, off timer,
+# 2 h 3 min -> 01 00 02 03; on timer -> 01 01 02 03; AC 9 -> 09 01 02 03; 248 h 59 min -> 01 01 08 3b.
+TIMER_TYPE_CODE = {"OFF_TIMER": 0, "ON_TIMER": 1}
+QT_FNS = [XQT + ":QuickTimerEncoder.size", XQT + ":QuickTimerEncoder.encode", XQT + ":QuickTimerDecoder.decode"]
+QT_ASSUME = ["oracle is repo-derived: 0xFF49 is not in the vendor document (module docstring/comments and test vectors)",
+             "datetime.timedelta is modelled as an integer number of microseconds, float seconds as exact reals"]
+
+
+@oset("at5.xFF49.roundtrip", ["C03"], QT_FNS, assumptions=QT_ASSUME)
+def xff49_roundtrip(h):
+    """Domain: what the wire can carry and the console keeps - whole minutes, less than 24 h."""
+    msg = h.new(XQT + ":QuickTimerMessage", ac_number=h.int("ac_number", 0, 255),
+                timer_type=h.enum("timer_type", XQT + ":TimerType"),
+                duration=h.new("datetime:timedelta", hours=h.int("hours", 0, 23), minutes=h.int("minutes", 0, 59)))
+    roundtrip_plain(h, XQT + ":QuickTimerEncoder", XQT + ":QuickTimerDecoder", msg, at5_ext_subheader, ID_QUICK_TIMER)
+
+
+@oset("at5.xFF49.encode-meaning", ["C04"], QT_FNS[:2], assumptions=QT_ASSUME)
+def xff49_encode(h):
+    """Every non-negative duration up to 10000 h, with seconds: the four bytes say AC, on/off, h mod 24, min."""
+    H = h.int("hours", 0, 10000)
+    M = h.int("minutes", 0, 59)
+    S = h.int("seconds", 0, 59)
+    msg = h.new(XQT + ":QuickTimerMessage", ac_number=h.int("ac_number", 0, 255),
+                timer_type=h.enum("timer_type", XQT + ":TimerType"),
+                duration=h.new("datetime:timedelta", hours=H, minutes=M, seconds=S))
+    enc = h.new(XQT + ":QuickTimerEncoder")
+    s = h.method(enc, "size", msg)
+    h.oblige("size() is 4", And(s.ok, h.eq(s.value, 4) if s.ok else False))
+    r = h.method(enc, "encode", at5_ext_subheader(h, ID_QUICK_TIMER, 4), msg)
+    h.oblige("encode does not raise", r.ok)
+    if not r.ok:
+        return
+    b = h.items(r.value)
+    h.oblige("4 bytes data", len(b) == 4)
+    if len(b) != 4:
+        return
+    h.oblige("byte1 = AC number", b[0] == h.attr(msg, "ac_number"))
+    h.oblige("byte2 = timer type (0 off timer, 1 on timer)",
+             b[1] == h.enum_code(h.attr(msg, "timer_type"), XQT + ":TimerType", TIMER_TYPE_CODE))
+    h.oblige("byte3 = whole hours of the duration modulo 24", b[2] == H % 24)
+    # "resolution is to the nearest minute" names no rounding rule: truncation and rounding to nearest are accepted
+    h.oblige("byte4 = minutes of the duration (seconds truncated or rounded to the nearest minute)",
+             Or(b[3] == M, And(S >= 30, M < 59, b[3] == M + 1)))
+    h.oblige("whole-minute durations: byte4 = minutes exactly", Implies(S == 0, b[3] == M))
+    h.cover("xFF49 encode")
+
+
+@oset("at5.xFF49.decode-reading", ["C05", "C17"], QT_FNS[2:], assumptions=QT_ASSUME)
+def xff49_decode(h):
+    L = h.choice("payload_length", [0, 1, 2, 3, 4, 5])
+    buf = h.bytes("payload", L)
+    dec = h.new(XQT + ":QuickTimerDecoder")
+    r = h.method(dec, "decode", buf, at5_ext_subheader(h, ID_QUICK_TIMER, L))
+    h.oblige("returns or rejects", only_rejects(h, r))
+    b = h.items(buf)
+    if not r.ok:
+        h.oblige("rejected only if shorter than 4 bytes or the timer type is neither 0 nor 1", Or(L < 4, b[1] > 1) if L >= 2 else True)
+        return
+    h.oblige("accepted => 4 bytes present", L >= 4)
+    if L < 4:
+        return
+    m = h.attr(r.value, "message")
+    h.oblige("AC number = byte1", h.attr(m, "ac_number") == b[0])
+    h.oblige("timer type = byte2 (0 off timer, 1 on timer)",
+             h.enum_code(h.attr(m, "timer_type"), XQT + ":TimerType", TIMER_TYPE_CODE) == b[1])
+    h.oblige("duration = byte3 hours + byte4 minutes",
+             h.eq(h.attr(m, "duration"), h.new("datetime:timedelta", hours=b[2], minutes=b[3])))
+    h.oblige("remaining = what follows the 4 bytes", h.length(h.attr(r.value, "remaining")) == L - 4)
